@@ -3171,7 +3171,13 @@ class UTPM(Ring, RawAlgorithmsMixIn):
 
         """
 
-        in_X = numpy.array(in_X)
+        if not isinstance(in_X, numpy.ndarray):
+            # numpy.array(in_X) would descend into the UTPM instances (they are sequences)
+            tmp = numpy.empty((len(in_X), len(in_X[0])), dtype=object)
+            for r, row in enumerate(in_X):
+                for c, X in enumerate(row):
+                    tmp[r,c] = X
+            in_X = tmp
         Rb,Cb = numpy.shape(in_X)
 
         # find the degree D and number of directions P
